@@ -182,6 +182,8 @@ def _single(ctx, rule, mi, fn, outs):
     o = outs[0]
     if o.kind != 'return':
         return f'raises {o.exc}'
+    if 'TOP' in repr(o.value):
+        raise AnalysisError(rule, site_of(mi, fn), f'{getattr(fn, "name", "?")}: result not fully evaluated ({o.value!r})')
     return o.value
 
 
@@ -388,7 +390,46 @@ def _r033(ctx: Ctx) -> None:
            f'returns {txt}', key='StabilizerCode.measure_syndrome|form', facts=txt)
 
 
+def _r034(ctx: Ctx) -> None:
+    """bvector <-> int converters are mutually inverse on every 2-qubit vector (finite domain)."""
+    m = ctx.model
+    mi = m.module('panqec.bpauli')
+    f_to = mi.functions.get('bvector_to_int')
+    f_from = mi.functions.get('int_to_bvector')
+    f_tos = mi.functions.get('bvectors_to_ints')
+    f_froms = mi.functions.get('ints_to_bvectors')
+    ctx.need(all([f_to, f_from, f_tos, f_froms]), 'R03.4', mi.relpath, 'integer converters not found')
+    n = 2
+    vecs = [list(v) for v in itertools.product((0, 1), repeat=2 * n)]
+    ints = []
+    bad = None
+    for v in vecs:
+        o = _single(ctx, 'R03.4', mi, f_to, _run_fn(ctx, 'R03.4', mi, f_to, [np.array(v)]))
+        want = int(''.join(map(str, v)), 2)
+        if o != want:
+            bad = f'bvector_to_int({v}) = {o!r}, expected {want}'
+            break
+        ints.append(o)
+        back = _aslist(_single(ctx, 'R03.4', mi, f_from, _run_fn(ctx, 'R03.4', mi, f_from, [o, n])))
+        if back != v:
+            bad = f'int_to_bvector({o}, {n}) = {back!r}, expected {v}'
+            break
+    ctx.ob('R03.4', site_of(mi, f_to), 'bvector_to_int / int_to_bvector are inverse on all 16 two-qubit vectors', bad is None,
+           bad or '', key='bvector_int|roundtrip')
+    bad = None
+    o = _single(ctx, 'R03.4', mi, f_tos, _run_fn(ctx, 'R03.4', mi, f_tos, [[np.array(v) for v in vecs]]))
+    if o != [int(''.join(map(str, v)), 2) for v in vecs]:
+        bad = f'bvectors_to_ints = {o!r}'
+    else:
+        b = _single(ctx, 'R03.4', mi, f_froms, _run_fn(ctx, 'R03.4', mi, f_froms, [list(o), n]))
+        if [_aslist(x) for x in b] != vecs:
+            bad = f'ints_to_bvectors(bvectors_to_ints(vs)) = {[_aslist(x) for x in b]!r}'
+    ctx.ob('R03.4', site_of(mi, f_tos), 'bvectors_to_ints / ints_to_bvectors are inverse on the list of all vectors', bad is None,
+           bad or '', key='bvectors_ints|roundtrip')
+
+
 def run(ctx: Ctx) -> None:
+    ctx.rule('R03.4', 'integer <-> bvector converters are mutually inverse (finite domain)', floor=2)
     ctx.rule('R03.1', 'bs_prod (dense, list, sparse; 1-D/2-D) is the GF(2) symplectic form entry by entry', floor=70)
     ctx.rule('R03.2', 'every Pauli<->bits converter encodes I=(0,0) X=(1,0) Y=(1,1) Z=(0,1)', floor=25)
     ctx.rule('R03.3', 'measure_syndrome is the symplectic product with the parity-check matrix', floor=1)
@@ -400,3 +441,4 @@ def run(ctx: Ctx) -> None:
     pauli_table_sites(ctx, 'R03.2')
     stabilizer_code_tables(ctx, 'R03.2')
     _r033(ctx)
+    _r034(ctx)
